@@ -93,7 +93,7 @@ Record node_ok (k : nat) (P : list acell) : Prop := mk_node {
 Definition child_of (a : nat) (child parent : list acell) : Prop :=
   R (zl a) child parent /\
   Forall2 same_cell (firstn (fns parent) parent) (firstn (fns parent) child) /\
-  exists c, nth_error child (fns parent) = Some c /\ cage c = zl a.
+  exists c, nth_error child (fns parent) = Some c /\ cage c = zl a /\ single c.
 
 Definition cur_ok (anc : list (list acell)) (L : nat) (skip : bool) (ps : pstate) : Prop :=
   Permutation (order_of (p_cells ps)) (seq 0 n) /\ nonempty (p_cells ps) /\ casc (p_cells ps) /\
